@@ -40,7 +40,8 @@ pub fn source_cfg(c: usize) -> (FileCfg, usize) {
 /// Tagged value. The leading byte is neither ascending nor descending in the source index, so
 /// an order of the values by their bytes never coincides with the source-addition order.
 pub fn value(source: usize, key_id: usize, pad: usize) -> Vec<u8> {
-    const LEAD: [u8; 4] = [0x60, 0x20, 0x80, 0x40];
+    // neither ascending nor descending in the source index
+    const LEAD: [u8; 12] = [0x60, 0x20, 0x80, 0x40, 0x70, 0x10, 0x90, 0x30, 0x50, 0xA0, 0x05, 0x65];
     let mut v = vec![LEAD[source], source as u8, b'k', key_id as u8];
     v.resize(4 + pad, 0x30 + source as u8);
     v
@@ -395,6 +396,15 @@ pub fn big_cases() -> Vec<BigCase> {
             }
         }
     }
+    // many sources ("any number"): every key is held by about two thirds of them, so the heap
+    // holds many equal heads at once
+    for sources in [6usize, 9, 12] {
+        for src_levels in [0u8, 2] {
+            for mf in [0u8, 1] {
+                v.push(BigCase { sources, n: 30, src_levels, dst_levels: 2, mf, io: 0 });
+            }
+        }
+    }
     v
 }
 
@@ -483,7 +493,7 @@ pub fn run(tier: Tier) -> i32 {
     let mut acc = acc;
     acc.merge(a2);
     rep.acc = acc;
-    rep.set("rule", json!("E2: all k in 0..=K source lists, each source an arbitrary subset of the 4-key universe {'', 40, 4000, 80} (empty sources included) written with one of 3 file configurations (default; 700-byte values + index_levels 2 so a source crosses blocks between entries; Snappy) — all combinations — x 2 merge functions (recording concatenation returning a lone value unchanged / Cow::Owned otherwise; Cow::Borrowed first value); sources added through add/push/extend; oracle: streamed output = union map, the recorded merge-call log = one call per key with the values in source-addition order, and write_into_stream_writer + read-back = the same content; plus larger merges (2-3 sources of 30/70 entries with 600-byte keys, source and destination index_levels up to 3 with cut index blocks; also over sources serving short/interrupted reads with a short-writing destination, and, as an observation that is noted but not judged, over sources that are handles of one file sharing a single position); distinct_nontrivial = cases where some key is held by >= 2 sources"));
+    rep.set("rule", json!("E2: all k in 0..=K source lists, each source an arbitrary subset of the 4-key universe {'', 40, 4000, 80} (empty sources included) written with one of 3 file configurations (default; 700-byte values + index_levels 2 so a source crosses blocks between entries; Snappy) — all combinations — x 2 merge functions (recording concatenation returning a lone value unchanged / Cow::Owned otherwise; Cow::Borrowed first value); sources added through add/push/extend; oracle: streamed output = union map, the recorded merge-call log = one call per key with the values in source-addition order, and write_into_stream_writer + read-back = the same content; plus larger merges (2-3 sources of 30/70 entries, and 6, 9 and 12 sources of 30 entries each holding two thirds of the keys, with 600-byte keys, source and destination index_levels up to 3 with cut index blocks; also over sources serving short/interrupted reads with a short-writing destination, and, as an observation that is noted but not judged, over sources that are handles of one file sharing a single position); distinct_nontrivial = cases where some key is held by >= 2 sources"));
     rep.set("bound", json!({"max_sources": maxk, "cases": total}));
     rep.assume("the merger cannot inspect the merge function, so the recorded call log (key, ordered values, call count) determines the output for every deterministic merge function");
     rep.finish()
